@@ -122,6 +122,7 @@ func init() {
 			c.rulesR3subs()
 			c.rulesR3misc("C06")
 			c.rulesR3flush()
+			c.rulesR3whentime()
 			c.rulesR3handlers()
 		}
 	})
